@@ -504,3 +504,45 @@ Lemma sx_prog_accepted_and_returns :
   (exists s', sgo_call 200 sx_prog "Use" [LitV (LitInt 4)] = Some (LitV (LitInt 45), s')) /\
   (exists s', sgo_call 200 sx_prog "Sum" [LitV (LitInt 3); LitV (LitInt 2)] = Some (LitV (LitInt 10), s')).
 Proof. split; [eexists; split; [vm_compute; reflexivity|reflexivity]|split; eexists; vm_compute; reflexivity]. Qed.
+
+(* ---------------------------------------------------------------- rejected or faithful *)
+Theorem sprog_rejected_or_faithful P :
+  trs_prog P = None \/
+  exists vs, trs_prog P = Some vs /\
+    Forall2 (fun fn F => forall n args v s s',
+               length args = length (sf_params fn) ->
+               sgo_body n P (rev (combine (map fst (sf_params fn)) (map Imm args))) s (sf_body fn) = Some (v, s') ->
+               evals (call_expr F args) s v s') P vs.
+Proof.
+  destruct (trs_prog P) as [vs|] eqn:E; [right|left; reflexivity].
+  exists vs. split; [reflexivity|apply sprog_correct, E].
+Qed.
+
+(* the refusals of the fragment *)
+Lemma srejects_assign_to_letbound T self G x t e k :
+  tlookup x G = Some (false, t) -> trs_body T self G (SAsg x e k) = None.
+Proof. intros H. cbn [trs_body]. rewrite H. reflexivity. Qed.
+
+Lemma srejects_assign_to_undeclared T self G x e k :
+  tlookup x G = None -> trs_body T self G (SAsg x e k) = None.
+Proof. intros H. cbn [trs_body]. rewrite H. reflexivity. Qed.
+
+Lemma srejects_unsupported_opassign T self G x e k op :
+  assign_op op = false -> trs_body T self G (SOpAsg op x e k) = None.
+Proof.
+  intros H. cbn [trs_body]. destruct (tlookup x G) as [[[] t]|]; try reflexivity.
+  destruct (trs_expr T self G e); [|reflexivity]. destruct (trs_body T self G k); [|reflexivity]. rewrite H. reflexivity.
+Qed.
+
+Lemma srejects_incdec_of_letbound T self G x t inc k :
+  tlookup x G = Some (false, t) -> trs_body T self G (SIncD inc x k) = None.
+Proof. intros H. cbn [trs_body]. rewrite H. reflexivity. Qed.
+
+Lemma srejects_param_named_like_function T name ps1 t ps2 body :
+  trs_func T {| sf_name := name; sf_params := ps1 ++ (name, t) :: ps2; sf_body := body |} = None.
+Proof.
+  unfold trs_func. cbn [sf_name sf_params].
+  assert (H : smem name (map fst (ps1 ++ (name, t) :: ps2)) = true).
+  { apply smem_In. rewrite map_app. apply in_or_app. right. left. reflexivity. }
+  rewrite H. cbn [negb]. rewrite andb_false_r. reflexivity.
+Qed.
